@@ -61,6 +61,7 @@ var (
 	convAddr   string
 	convMu     sync.Mutex // one conversation at a time: the recorder factory hands out `convCur`
 	convCur    *convRecorder
+	convCurAny service.TerminalEventer // set by checks that install their own recorder type
 	convCurMu  sync.Mutex
 	convServer *service.GoJT808
 )
@@ -78,6 +79,9 @@ func convStart() {
 			service.WithCustomTerminalEventer(func() service.TerminalEventer {
 				convCurMu.Lock()
 				defer convCurMu.Unlock()
+				if convCurAny != nil {
+					return convCurAny
+				}
 				if convCur == nil {
 					return &convRecorder{}
 				}
@@ -100,6 +104,8 @@ func convStart() {
 		panic("in-process JT808 server did not start")
 	})
 }
+
+func dialConv() (net.Conn, error) { return net.DialTimeout("tcp", convAddr, 2*time.Second) }
 
 // splitFrames extracts complete frames (7e..7e) from buf, returns them and the rest.
 func splitFrames(buf []byte) ([][]byte, []byte) {
